@@ -7,6 +7,7 @@ PID = "C14"
 LEVEL = "exploration"
 RULE = (
     "One spec in three has lived before (warm start): another model edited in place into this one or swapped into the old project object, or the model's own run cut short by max_time and then continued with one of the unequal initialize-flag combinations (state carried over and logs restarted, or state reset and logs appended), or a first run that does not initialize the logs. "
+    'One cold-started spec in six is simulated with unit_time 2 or 3 (absence lists in time units, steps and logs indexed by step). The log relation is re-checked after an overlapping insert_absence_time_list and after the following remove_absence_time_list. '
     'Hypothesis-generated products and workflows (0-5 components, flat and nested, arbitrary task-to-component assignment, components without tasks, tasks listed by a component without a back link or by two components, mixed default progress) simulated once. Oracle per step on the live updated/allocated/recorded snapshots and on the logs: FINISHED <=> all tasks FINISHED, any task WORKING => WORKING, not NONE while a task is READY/WORKING, never back to NONE, never leaves FINISHED; the log relation is re-checked on a run paused in the middle and resumed, in memory and through a JSON round trip. Non-trivial = a component whose tasks were in different states at some step; distinct by spec hash.'
 )
 ASSUMPTIONS = [
@@ -17,11 +18,11 @@ TECHNIQUE = 'property-based testing (Hypothesis): generated products, component/
 LEVEL_TEXT = 'Generated-input search with a relational invariant between component and task states at every step; not a proof.'
 LEVEL_NOTE = 'Trusts the step observer and the builder.'
 
-CFG = gen.Cfg(warm_modes=["morph", "graft", "carry", "append", "nolog"], warm=4, facilities=True, nested="assembly", max_time=[40, 80])
+CFG = gen.Cfg(unit_time=6, warm_modes=["morph", "graft", "carry", "append", "nolog"], warm=4, facilities=True, nested="assembly", max_time=[40, 80])
 # arbitrary forests with arbitrary task assignment: only without workplaces (placement of nested
 # products outside the assembly form crashes, known finding D-PLC4 of C13)
 CFG_FREE = gen.Cfg(warm_modes=["morph", "graft", "carry", "append", "nolog"], warm=3, facilities=True, nested="free", max_wps=0, max_time=[40, 80], multi_parent=2)
-CFG_FLAT = gen.Cfg(warm_modes=["morph", "graft", "carry", "append", "nolog"], warm=2, facilities=True, max_time=[40, 80])
+CFG_FLAT = gen.Cfg(unit_time=6, warm_modes=["morph", "graft", "carry", "append", "nolog"], warm=2, facilities=True, max_time=[40, 80])
 
 
 # many automatic tasks bound to components, project-wide absence steps early in the run (both settings of the flag)
@@ -85,4 +86,19 @@ def check(spec):
     S.simulate(p2, spec["opts"], initialize_state_info=False, initialize_log_info=False)
     simcheck.check_c14_logs(p2, res, "json_resumed")
     res.stats["resumed_runs"] += 2
+    if res.violations:
+        return res
+    # ... and after the finished result has been edited: absence steps inserted (overlapping the steps already
+    # present, a duplicate included) and removed again - components and tasks are edited through different objects
+    p = sim.p
+    if sim.t0 == 0 and not sim.backward:
+        n = len(p.cost_list)
+        present = [a for a in spec["opts"].get("abs", []) if a < n]
+        ins = sorted(set([1 % (n + 1), n // 2] + present[:2]))
+        p.insert_absence_time_list(list(ins))
+        simcheck.check_c14_logs(p, res, "after_insert")
+        if not res.violations:
+            p.remove_absence_time_list()
+            simcheck.check_c14_logs(p, res, "after_insert_and_remove")
+        res.stats["edited_results"] += 1
     return res
